@@ -49,6 +49,10 @@ class HttpShard(ShardCMC):
     def read_bytes(self, offset: int, length: int) -> bytes:
         if not self.can_read_cmc:
             raise ShardedIOError("Shard cannot read")
+        if length == 0:
+            # "bytes=N-(N-1)" is not a valid Range, servers answer it with
+            # the whole file or an error
+            return b""
 
         file_url = f"{self.base_url}{self.shard_key_str}"
         if self.is_legacy:
